@@ -7,7 +7,7 @@
        symmetric (Leibniz equality of the stored weights) for any rounding.
     4. [paris_clamped_hmono]: the proposed repair of D25 (clamp) gives [hmono] for any rounding. *)
 From Coq Require Import Permutation Lia QArith Lqa.
-From SKN Require Import Base.Util Model.Dendrogram Model.Cuts Model.Hierarchy Model.Paris Proofs.CutsProofs Proofs.HierarchyBase.
+From SKN Require Import Base.Util Model.Dendrogram Model.Cuts Model.Hierarchy Model.Paris Proofs.DendroBase Proofs.HierarchyBase.
 Set Warnings "-deprecated-hint-without-locality".
 
 (** * Small list facts *)
